@@ -439,6 +439,9 @@ MEDIUM = [
     dict(name="medium-3dims", struct=[(), (), ()], Ns=(18,), extents=[(4, 3, 5)], cap=0, K=4, plan=("pick", 2, 6)),
     dict(name="medium-5cols", struct=[(5,)], Ns=(12,), extents=[(4,)], cap=0, K=4, plan=("pick", 3, 8)),
     dict(name="medium-4cols+1", struct=[(4,), ()], Ns=(16,), extents=[(4, 5)], cap=0, K=3, plan=("pick", 2, 6)),
+    dict(name="medium-9cols", struct=[(9,)], Ns=(3,), extents=[(3,)], cap=0, K=4, plan=("pick", 3, 6)),
+    dict(name="medium-17cols", struct=[(17,)], Ns=(2,), extents=[(2,)], cap=0, K=3, plan=("pick", 2, 5)),
+    dict(name="medium-long-lists", struct=[(), ()], Ns=(70,), extents=[(2, 7)], cap=0, K=4, plan=("pick", 3, 8)),
 ]
 
 
